@@ -91,7 +91,7 @@ func c04Describe(ca *cgCA, s *cgSpec, mode string) string {
 }
 
 func TestC04_IssuanceWithinCA(t *testing.T) {
-	vk.Check(t, 12000, func(rt *rapid.T) {
+	vk.Check(t, 40000, func(rt *rapid.T) {
 		ca := cgDrawCA(rt, "ca")
 		selfSign := rapid.IntRange(0, 7).Draw(rt, "selfsign") == 0
 		var f cgFaults
